@@ -29,16 +29,32 @@ WORDS = ["alpha", "beta", "gamma", "delta", "x", "lorem ipsum", "the quick brown
          "semi;colon", "q\"uote", "back\\slash", "(paren)", "{12}", "[br]", "e", ""]
 
 
-def gen_text(rng, big=False):
+def gen_text(rng, big=False, eol=None):
+    """lines of text; eol: None = CRLF only (the framing of the message),
+    "lf" = bare LF inside the content (Unix text attachment), "mixed" = CRLF,
+    bare LF and lone CR mixed, "cr" = lone CR line ends"""
     n = rng.choice([0, 1, 1, 2, 3, 5]) if not big else rng.randint(30, 60)
+    if eol and n < 2:
+        n = rng.randint(2, 5)
     lines = []
     for _ in range(n):
         l = " ".join(rng.choice(WORDS) for _ in range(rng.randint(0, 6 if not big else 8)))
         if l.startswith(".") or l.startswith("--"):
             l = "x" + l
         lines.append(l)
-    body = "\r\n".join(lines)
-    return body
+    if not eol:
+        return "\r\n".join(lines)
+    out = ""
+    for i, l in enumerate(lines):
+        out += l
+        if i + 1 < len(lines):
+            if eol == "lf":
+                out += "\n"
+            elif eol == "cr":
+                out += rng.choice(["\r", "\r", "\n"])
+            else:
+                out += rng.choice(["\r\n", "\n", "\n", "\r", "\n\n", "\r\r\n", "\n\r"])
+    return out
 
 
 B64 = "ABCDEFGHIJKLMNOPQRSTUVWXYZabcdefghijklmnopqrstuvwxyz0123456789+/"
@@ -54,7 +70,7 @@ def gen_leaf(rng):
     if not istext and rng.random() < 0.5:
         fname = rng.choice(["a.bin", "report.pdf", "pic one.png"])
     if enc and enc.lower() == "base64":
-        k = rng.choice(["short", "long1", "wrapped", "wrapped_nl", "long_nl"])
+        k = rng.choice(["short", "long1", "wrapped", "wrapped_nl", "long_nl", "wrapped_lf"])
         def b(n):
             return "".join(rng.choice(B64) for _ in range(n))
         if k == "short":
@@ -65,15 +81,20 @@ def gen_leaf(rng):
             content = "\r\n".join([b(76)] * rng.randint(1, 3) + [b(rng.randint(1, 76))])
         elif k == "wrapped_nl":
             content = "\r\n".join([b(76)] * rng.randint(1, 3)) + "\r\n"
+        elif k == "wrapped_lf":
+            content = "\n".join([b(76)] * rng.randint(1, 2) + [b(rng.randint(1, 76))])   # wrapped with bare LF
         else:
             content = b(rng.choice([100, 160])) + "\r\n"
     else:
-        content = gen_text(rng, big=(rng.random() < 0.08))
+        eol = rng.choice([None, None, None, "lf", "lf", "mixed", "cr"])
+        content = gen_text(rng, big=(rng.random() < 0.08), eol=eol)
         e = rng.random()
         if e < 0.3 and content:
             content += "\r\n"            # part content ends with a line break
         elif e < 0.4 and content:
             content += "\r\n\r\n"
+        elif e < 0.55 and content and eol:
+            content += rng.choice(["\n", "\n\n", "\r", "\n\r\n"])   # ends with a bare LF / lone CR
     return {"leaf": True, "ctype": ctype, "charset": charset, "enc": enc, "fname": fname, "content": content}
 
 
@@ -614,8 +635,10 @@ def evaluate_attrs(chk, groups, built, results, corpus_mode=False):
     leaf_cases = []
     size_cases = []
     flat_cases = []
+    transp_cases = []
     stats = {"messages": 0, "items": 0, "leaves": 0, "multipart": 0, "nested": 0, "blob_parts": 0, "partials": 0,
-             "absent_paths": 0, "crlf_leaves": 0, "rewrap_leaves": 0, "special_names": 0}
+             "absent_paths": 0, "crlf_leaves": 0, "rewrap_leaves": 0, "special_names": 0,
+             "bare_lf_leaves": 0, "lone_cr_leaves": 0, "bare_lf_blob_leaves": 0, "bare_lf_single_part": 0, "bare_lf_nested_leaves": 0}
     nontrivial = set()
     for gi, (grp, (ops, plan, q), res) in enumerate(zip(groups, built, results)):
         if res.get("crashed") or len(res.get("obs", [])) != len(ops):
@@ -664,6 +687,23 @@ def evaluate_attrs(chk, groups, built, results, corpus_mode=False):
                 if any(not k["leaf"] for k in m["tree"]["kids"]):
                     stats["nested"] += 1
             stats["blob_parts"] += sum(1 for r in rows if r["blob"])
+            for r in rows:
+                if r["ct"].startswith("multipart/"):
+                    continue
+                if re.search(r"(?<!\r)\n", r["content"]):
+                    stats["bare_lf_leaves"] += 1
+                    stats["bare_lf_blob_leaves"] += 1 if r["blob"] else 0
+                    stats["bare_lf_single_part"] += 1 if len(rows) == 1 else 0
+                    if r["par"] is not None and r["par"] != rows[0]["id"]:
+                        stats["bare_lf_nested_leaves"] += 1
+                if re.search(r"\r(?!\n)", r["content"]):
+                    stats["lone_cr_leaves"] += 1
+            # reconstruction is byte-transparent for part content (model side): the written body of
+            # every leaf row occurs in BODY[]; for a single-part message BODY[TEXT] is the stored content
+            if single:
+                transp_cases.append(("(raw_%s, rows_%s, true)" % (tag, tag), {"msg": m["text"], "item": "BODY[TEXT] = stored content of the only part"}))
+            elif rows:
+                transp_cases.append(("(raw_%s, rows_%s, false)" % (tag, tag), {"msg": m["text"], "item": "written body of every leaf row occurs in BODY[]"}))
             # ---- (a)
             if main["size"] != len(raw):
                 chk.violation("RFC822.SIZE %s differs from the length %d of BODY[]" % (main["size"], len(raw)), dict(payload0, part="a"))
@@ -689,6 +729,8 @@ def evaluate_attrs(chk, groups, built, results, corpus_mode=False):
                     lab = "BODY[%s]" % ".".join(map(str, info["path"]))
                     if lab in pr["sections"]:
                         sect[info["path"]] = pr["sections"][lab] or ""
+            if single and (1,) in sect and sect[(1,)] != txt:
+                chk.violation("single-part message: BODY[1] (%d octets) is not BODY[TEXT] (%d octets)" % (len(sect[(1,)]), len(txt)), dict(payload0, part="c-single", got=sect[(1,)], text=txt))
             for p, bl in sorted(bleaves.items()):
                 stats["leaves"] += 1
                 ml = mleaves.get(p)
@@ -811,12 +853,18 @@ def evaluate_attrs(chk, groups, built, results, corpus_mode=False):
                  "Definition row_eqb (a b : row) := Nat.eqb (rid a) (rid b) && Nat.eqb (rpn a) (rpn b) && onat_eqb (rpar a) (rpar b) && str_eqb (rct a) (rct b) && str_eqb (renc a) (renc b) && str_eqb (rcontent a) (rcontent b).\n"
                  "Fixpoint rows_eqb (a b : list row) := match a, b with [], [] => true | x :: a', y :: b' => row_eqb x y && rows_eqb a' b' | _, _ => false end.\n"
                  "Definition flat_bad := Eval vm_compute in bad (map (fun c : tree * nat * list row => let '(t, base, rows) := c in rows_eqb (rows_of t base) rows) flat_cases).\nPrint flat_bad.\n")
+        body += "Definition transp_cases : list (str * list row * bool) := [\n%s].\n" % ";\n".join(c for c, _ in transp_cases)
+        body += ("Definition is_leaf_row (r : row) := negb (has_prefix (rct r) multipart_pfx).\n"
+                 "Definition transp_bad := Eval vm_compute in bad (map (fun c : str * list row * bool => let '(raw, rows, single) := c in "
+                 "if single then match rows with [r] => str_eqb (text_of (load_raw raw)) (rcontent r) | _ => false end "
+                 "else forallb (fun r => negb (is_leaf_row r) || contains (load_raw raw) (crlf ++ crlf ++ written_content (renc r) (rcontent r) ++ [ascii_of_nat 45; ascii_of_nat 45])%list) rows) transp_cases).\nPrint transp_bad.\n")
         rc, log = C.coq_eval_cases("C14_attrs" if not corpus_mode else "C14_corpus", body)
         if rc != 0:
             chk.broken_obligation("in-Coq evaluation of the C14 attrs cases failed:\n" + log[-1500:], {"suite": "attrs"})
         else:
             for name, cases, what in (("item_bad", item_cases, "fetch_item"), ("size_bad", size_cases, "size_of"), ("leaf_bad", leaf_cases, "announced_leaf/map_path"),
-                                      ("flat_bad", flat_cases, "rows_of (row numbering of parseMultipart + StoreMessagePerUser...)")):
+                                      ("flat_bad", flat_cases, "rows_of (row numbering of parseMultipart + StoreMessagePerUser...)"),
+                                      ("transp_bad", transp_cases, "load_raw/written_content (BODY[] holds the stored part content byte for byte)")):
                 d = parse_bad(log, name)
                 if d is None:
                     chk.broken_obligation("could not read %s from the Coq output" % name, {"suite": "attrs"})
@@ -1026,7 +1074,7 @@ def run(chk):
     chk.cov["traces_validated_against_impl"] = st.get("messages", 0)
     chk.cov["distinct_nontrivial"] = st.get("nontrivial", 0)
     chk.cov["rule"] = ("attrs: seeded messages of the C02 grammar (headers in random order, folded fields, display names plain/quoted/with comma/with quoted pairs; single part or multipart "
-                       "nested up to depth 3; leaf content empty / without / with one / with two final line breaks, base64 one-line short and long, wrapped; parts > 1024 octets or with a "
+                       "nested up to depth 3; leaf content empty / without / with one / with two final line breaks, with bare LF, lone CR and mixed line endings inside the CRLF framing (inline, nested, out of line, single-part bodies; also ending in a bare LF / lone CR), base64 one-line short and long, wrapped with CRLF or bare LF; parts > 1024 octets or with a "
                        "filename are stored as blobs) delivered over LMTP and read over IMAP: one FETCH of RFC822.SIZE BODYSTRUCTURE ENVELOPE BODY[] BODY[HEADER] BODY[TEXT], one per leaf path, "
                        "absent paths, partials on leaves, TEXT, BODY[] and HEADER. Every item is (1) judged by the executable reading of C14 and (2) compared with Model/Sections.v evaluated "
                        "by vm_compute on the message's part table. distinct_nontrivial = distinct reconstructed texts (boundaries renamed). mappath: random part tables vs map_path. "
